@@ -5,6 +5,7 @@ mod interpose;
 mod oracle;
 mod scenario;
 mod sim;
+mod tsan_rt;
 mod world;
 
 #[global_allocator]
